@@ -84,7 +84,7 @@ def sched(rng, mode):
         if mode == "short":
             ents.append(rng.choice(["all", str(rng.choice([0, 1, 5, 100, 1000, 4095, 4096]))]))
         elif mode == "again":
-            ents.append(rng.choice(["all", "again", "again"]))
+            ents.append(rng.choice(["all", "all", "again"]))
         elif mode == "err":
             ents.append(rng.choice(["all", "all", "err"]))
         else:
@@ -98,9 +98,14 @@ def gen_write(rng, big, mode):
     for _ in range(rng.randrange(1, 5)):
         for _ in range(rng.choice([1, 1, 1, 2, 3])):
             n = pick_size(rng, big)
+            kind = None
             if rng.random() < 0.02:
                 n = 0
-            ops.append("send " + hx(payload(rng, n)))
+            elif mode == "again" and rng.random() < 0.5:
+                # deflate must stop in the middle of the element (output full, input left): that
+                # needs more than one zlib window of incompressible input
+                n, kind = rng.choice([40000, 70000, 100000, 131072]), "rand"
+            ops.append("send " + hx(payload(rng, n, kind)))
         for _ in range(rng.choice([1, 1, 1, 2, 4])):
             ops.append("w " + sched(rng, mode))
     # let everything drain through a transport that accepts everything
